@@ -9,7 +9,7 @@ from .core import History, Sub, Outcome, target
 
 PID = 'C15'
 SHARDS = {'quick': 4, 'thorough': 16}
-RULE = ('Histories of density/diameter assignments (single type or list of types, python float / int / numpy '
+RULE = ('Histories of density/diameter assignments (single type, list or tuple of types, python float / int / numpy '
         'scalar values, log-uniform 1e-6..1e2, or the current value changed by a relative 1e-12..1e-6 / absolute 1e-10..1e-9 amount) on 1-4 types run by a Hypothesis RuleBasedStateMachine against a dict '
         'model; after every step every derived quantity (pair, site, total, sigma, volume, accessors, check()) is '
         'compared with the model. Non-trivial = the history re-assigns a type after another type was assigned; '
@@ -50,7 +50,10 @@ class DensityDiameterHistory(History):
 
     def ops(self, tier):
         idx = st.integers(0, 3)
-        key = st.one_of(idx, idx, st.lists(idx, min_size=1, max_size=4))
+        # a group of types may be given as any iterable (Table.listify): python lists and tuples -- 2-tuples included, which
+        # __getitem__ reads as a pair but __setitem__ must still treat as a group of two types
+        tup = st.lists(idx, min_size=1, max_size=4).map(lambda l: {'tuple': l})
+        key = st.one_of(idx, idx, st.lists(idx, min_size=1, max_size=4), tup, st.tuples(idx, idx).map(lambda t: {'tuple': list(t)}))
         return {'set_density': {'key': key, 'value': _value()},
                 'set_diameter': {'key': key, 'value': _value()},
                 'read': {}}
@@ -65,6 +68,8 @@ class DensityDiameterHistory(History):
 
     def _key(self, state, key):
         n = len(state['types'])
+        if isinstance(key, dict):
+            return tuple(state['types'][i % n] for i in key['tuple'])
         if isinstance(key, list):
             return [state['types'][i % n] for i in key]
         return state['types'][key % n]
@@ -74,7 +79,9 @@ class DensityDiameterHistory(History):
             self.compare(state, out)
             return
         key = self._key(state, op['key'])
-        names = key if isinstance(key, list) else [key]
+        names = list(key) if isinstance(key, (list, tuple)) else [key]
+        if isinstance(key, tuple):
+            out.label('tuple-key-len%d' % len(key))
         which = 'm_rho' if op['op'] == 'set_density' else 'm_dia'
         if isinstance(op['value'], list) and op['value'][0] == 'derived':
             cur = [float(state[which][n]) for n in names if n in state[which]]
